@@ -41,7 +41,7 @@ import vlib
 # schemagen features whose output lies (mostly) in the fragment; what falls outside
 # (by-value recursion, non-ASCII names are rewritten) is filtered by `in_frag` itself
 FEATURES = {"bool", "int", "int_format", "number", "string", "null", "str_enum", "object", "closed_object",
-            "map", "array", "nullable_type", "ref", "recursion", "rename"}
+            "map", "array", "nullable_type", "ref", "recursion", "rename", "str_len", "str_pattern"}
 
 CORPUS = os.path.join(vlib.ROOT, "corpus", "convert")
 
@@ -64,6 +64,14 @@ LEAVES = [
     {"type": "string", "enum": ["a", "b-c"]}, {"type": ["string", "null"]}, {"type": ["null", "integer"]},
     {"type": ["string", "null"], "enum": ["x", "y"]},
     {}, {"type": "object"}, {"type": "array"},
+    {"type": "string", "minLength": 1}, {"type": "string", "maxLength": 3, "pattern": "^ab$"},
+    {"type": ["string", "null"], "pattern": "x-y"},
+    {"type": "string", "pattern": "^[a-z]+$"},            # outside: the pattern class
+    {"type": "string", "enum": ["a", "bb"], "minLength": 2},   # outside: enum with validation
+    {"minLength": 2},                                     # outside: untyped
+    {"type": "array", "items": {"type": "boolean"}, "minItems": 1, "maxItems": 4}, {"type": "array", "maxItems": 2},
+    {"type": "array", "items": {"type": "boolean"}, "minItems": 2, "maxItems": 2},   # outside: fixed length
+    {"type": "array", "items": {"type": "boolean"}, "minItems": 0, "maxItems": 0},   # outside
     {"type": "object", "additionalProperties": False},
     {"$ref": "#/definitions/B"},
 ]
@@ -119,6 +127,30 @@ def curated():
     return out
 
 
+SAFE_PAT = re.compile(r"^\^?[A-Za-z0-9 _-]*\$?$")
+SAFE_POOL = ["^a", "b$", "^ab$", "x-y", "A_b 9", ""]
+
+
+def safe_patterns(x, keep_every=4):
+    """schemagen's patterns use classes / quantifiers the model's [pat_safe] does not cover; rewrite most of
+    them to patterns of the class (every 4th one is kept: those documents must be classified outside)"""
+    cnt = [0]
+
+    def walk(v):
+        if isinstance(v, dict):
+            if isinstance(v.get("pattern"), str) and not SAFE_PAT.match(v["pattern"]):
+                cnt[0] += 1
+                if cnt[0] % keep_every:
+                    v["pattern"] = SAFE_POOL[sum(map(ord, v["pattern"])) % len(SAFE_POOL)]
+            for w in v.values():
+                walk(w)
+        elif isinstance(v, list):
+            for w in v:
+                walk(w)
+    walk(x)
+    return x
+
+
 def random_docs(n, seed):
     docs = []
     for k in range(n):
@@ -126,7 +158,7 @@ def random_docs(n, seed):
         feats = FEATURES if k % 3 == 0 else FEATURES - {"recursion"}
         g = schemagen.Gen(seed * 100003 + k, features=feats, ndefs=(1, 5))
         doc, _ = g.doc()
-        doc = asciify({"definitions": doc["definitions"]})
+        doc = safe_patterns(asciify({"definitions": doc["definitions"]}))
         docs.append(doc)
     return docs
 
